@@ -162,6 +162,11 @@ for tc in (False, True):
         hdr = bytes(s.sent[before:before + 48])
         out[f"{n}:{int(tc)}"] = [struct.unpack_from("<I", hdr, 44)[0], cls.type_hash, struct.unpack_from("<i", hdr, 0)[0], cls.type_id]
     c._connected = False
+keep = C.Client(module_id=12)
+keep_sock = ScriptSock(); keep._sock = keep_sock; keep._connected = True
+keep.send_message(mod.MDF_MSGA())
+if len(sys.argv) <= 3:
+    keep._connected = False
 if len(sys.argv) > 3:
     # the definitions were edited and recompiled; the new module is loaded into the same interpreter
     spec2 = importlib.util.spec_from_file_location("gen", sys.argv[3])
@@ -174,6 +179,12 @@ if len(sys.argv) > 3:
     hdr = bytes(s.sent[:48])
     out["MSGA:reloaded"] = [struct.unpack_from("<I", hdr, 44)[0], want, struct.unpack_from("<i", hdr, 0)[0], 1010]
     c._connected = False
+    # ... and a client that was connected all along (it sent the old definition before the reload) stamps the new hash too
+    before = len(keep_sock.sent)
+    keep.send_message(mod2.MDF_MSGA())
+    hdr = bytes(keep_sock.sent[before:before + 48])
+    out["MSGA:reloaded-same-client"] = [struct.unpack_from("<I", hdr, 44)[0], want, struct.unpack_from("<i", hdr, 0)[0], 1010]
+    keep._connected = False
 print(json.dumps(out))
 """
 
